@@ -1,4 +1,62 @@
-import Heathcliff.Model.Galois
+import Heathcliff.Proofs.C11N
+
+/- Property theorems only (statements verbatim; proofs are the helper lemmas of Heathcliff/Proofs). -/
 namespace HC.C11
-theorem placeholder : galoisGenerator = 3 := rfl
+open HC
+open Finset
+
+/-- INDEX MAP: entry i is brev((slotExp i − 1)/2), i.e. the NTT position holding the evaluation at psi^(slotExp i) -/
+theorem batchIndexMap_spec {k i : Nat} (hk : 1 ≤ k) (hi : i < 2^k) :
+    (batchIndexMap k).size = 2^k ∧ (batchIndexMap k).getD i 0 = brev k ((slotExp k i - 1) / 2) ∧
+    slotExp k i % 2 = 1 ∧ slotExp k i < 2 * 2^k := HC.batchIndexMap_spec hk hi
+
+/-- the slot exponents ±3^i are pairwise distinct modulo 2N (so they are ALL odd residues: 3 has order N/2 and −1 ∉ ⟨3⟩) -/
+theorem slotExp_injective {k i j : Nat} (hk : 1 ≤ k) (hi : i < 2^k) (hj : j < 2^k) (h : slotExp k i = slotExp k j) : i = j := HC.slotExp_injective hk hi hj h
+
+/-- INDEX MAP IS A PERMUTATION of [0, N) -/
+theorem batchIndexMap_perm {k : Nat} (hk : 1 ≤ k) :
+    (∀ i, i < 2^k → (batchIndexMap k).getD i 0 < 2^k) ∧
+    (∀ i j, i < 2^k → j < 2^k → (batchIndexMap k).getD i 0 = (batchIndexMap k).getD j 0 → i = j) := HC.batchIndexMap_perm hk
+
+/-- DECODE = evaluation: slot i of `decode p` is p(psi^(slotExp i)) mod t (psi the table's root) -/
+theorem batchDecode_eval (hw : t.WF) (hk : 1 ≤ t.k) (p : Array Nat) (hs : p.size ≤ 2^t.k)
+    (hp : ∀ j, j < p.size → p.getD j 0 < t.modulus.value) :
+    (batchDecode t p).size = 2^t.k ∧ ∀ i, i < 2^t.k →
+      (batchDecode t p).getD i 0 =
+        (∑ j ∈ range (2^t.k), p.getD j 0 * (t.root ^ slotExp t.k i) ^ j) % t.modulus.value := HC.batchDecode_eval hw hk p hs hp
+
+/-- ROUND TRIP: decoding inverts encoding; shorter inputs are zero-padded -/
+theorem batch_decode_encode (hw : t.WF) (hk : 1 ≤ t.k) (v : Array Nat) (hs : v.size ≤ 2^t.k)
+    (hv : ∀ j, j < v.size → v.getD j 0 < t.modulus.value) :
+    ∃ p, batchEncode t v = .ok p ∧ p.size = 2^t.k ∧ (∀ j, j < 2^t.k → p.getD j 0 < t.modulus.value) ∧
+      ∀ i, i < 2^t.k → (batchDecode t p).getD i 0 = v.getD i 0 := HC.batch_decode_encode hw hk v hs hv
+
+/-- and encoding inverts decoding on full-length canonical plaintexts (bijection) -/
+theorem batch_encode_decode (hw : t.WF) (hk : 1 ≤ t.k) (p : Array Nat) (hs : p.size = 2^t.k)
+    (hp : ∀ j, j < 2^t.k → p.getD j 0 < t.modulus.value) :
+    batchEncode t (batchDecode t p) = .ok p := HC.batch_encode_decode hw hk p hs hp
+
+/-- RING ISOMORPHISM (product): the slots of the negacyclic product are the products of the slots -/
+theorem batch_mul_slots (hw : t.WF) (hk : 1 ≤ t.k) (a b : Array Nat) (hsa : a.size = 2^t.k) (hsb : b.size = 2^t.k)
+    (ha : ∀ j, j < 2^t.k → a.getD j 0 < t.modulus.value) (hb : ∀ j, j < 2^t.k → b.getD j 0 < t.modulus.value) :
+    let prod : Array Nat := Array.ofFn (n := 2^t.k) fun c => negMulNat (2^t.k) t.modulus.value a b c.val
+    ∀ i, i < 2^t.k → (batchDecode t prod).getD i 0 =
+      ((batchDecode t a).getD i 0 * (batchDecode t b).getD i 0) % t.modulus.value := HC.batch_mul_slots hw hk a b hsa hsb ha hb
+
+/-- (sum) -/
+theorem batch_add_slots (hw : t.WF) (hk : 1 ≤ t.k) (a b : Array Nat) (hsa : a.size = 2^t.k) (hsb : b.size = 2^t.k)
+    (ha : ∀ j, j < 2^t.k → a.getD j 0 < t.modulus.value) (hb : ∀ j, j < 2^t.k → b.getD j 0 < t.modulus.value) :
+    let sum : Array Nat := Array.ofFn (n := 2^t.k) fun c => (a.getD c.val 0 + b.getD c.val 0) % t.modulus.value
+    ∀ i, i < 2^t.k → (batchDecode t sum).getD i 0 =
+      ((batchDecode t a).getD i 0 + (batchDecode t b).getD i 0) % t.modulus.value := HC.batch_add_slots hw hk a b hsa hsb ha hb
+
+/-- GALOIS ACTION ON SLOTS (exponent level): substituting X ↦ X^(3^s) moves slot (i + s mod N/2) of the same row to slot i,
+    and X ↦ X^(2N−1) exchanges the rows: slotExp(i)·3^s ≡ slotExp(rot i), slotExp(i)·(2N−1) ≡ slotExp(swap i) (mod 2N) -/
+theorem slotExp_rotate {k i s : Nat} (hk : 2 ≤ k) (hi : i < 2^k) :
+    let row := 2^k / 2
+    (slotExp k i * 3 ^ s) % (2 * 2^k) = slotExp k ((i / row) * row + (i % row + s) % row) := HC.slotExp_rotate hk hi
+
+theorem slotExp_swap {k i : Nat} (hk : 1 ≤ k) (hi : i < 2^k) :
+    (slotExp k i * (2 * 2^k - 1)) % (2 * 2^k) = slotExp k ((i + 2^k / 2) % 2^k) := HC.slotExp_swap hk hi
+
 end HC.C11
